@@ -1,4 +1,5 @@
 import Taskpool.Props.C04
+import Taskpool.Inv.GoodInv
 /-! # C05 — map family: element-wise, ordered, bounded, lazy, work-conserving
 
 The consumer loop of `map`/`starmap`/`doublestarmap` (`_arg_consumer`): order, laziness and accounting for every
@@ -26,7 +27,7 @@ theorem waitMapSem_req (p : Pool) (m : Nat) (r : Req) (h : p.reqs[m]? = some r) 
     exact getElem?_modify_eq _ _ _ _ key
   · exact ⟨wmsUpd w r, key, rfl, rfl, rfl, rfl, rfl⟩
 
-def tmsUpd (x : Req) : Req := { x with acquired := true, mapSem := { x.mapSem with value := x.mapSem.value.dec } }
+def tmsUpd (x : Req) : Req := { x with acquired := true, frame := .running, mapSem := { x.mapSem with value := x.mapSem.value.dec } }
 
 theorem waitRoom_hooks (p : Pool) (m : Nat) (r : Req) (h : p.reqs[m]? = some r) :
     ∃ r', (p.waitRoom m).reqs[m]? = some r' ∧ r'.hooks = r.hooks := by
@@ -42,7 +43,7 @@ theorem waitRoom_hooks (p : Pool) (m : Nat) (r : Req) (h : p.reqs[m]? = some r) 
 
 /-- one pull: the head of the remaining elements is taken — nothing else, and only when the loop asks for it -/
 theorem pullItem_req (p : Pool) (m : Nat) (rest : List Item) (r : Req) (h : p.reqs[m]? = some r) (hh : r.hooks.pull = []) :
-    (p.pullItem m rest).reqs[m]? = some { r with items := rest, pulled := r.pulled + 1, acquired := false } ∧
+    (p.pullItem m rest).reqs[m]? = some { r with items := rest, pulled := r.pulled + 1, acquired := false, frame := .running } ∧
     (p.pullItem m rest).tasks = p.tasks ∧ (p.pullItem m rest).log = p.log ++ [.pull m r.pulled] := by
   unfold pullItem
   simp only [h, Option.getD_some, hh, runHooks, List.foldl_nil]
@@ -83,7 +84,7 @@ theorem C05_loop_accounting_partial (m : Nat) (items : List Item) (p : Pool) (r 
     split
     · -- the element's call raises: skipped, next element
       have h2 : ((p.pullItem m rest).modReq m fun x => { x with skipped := x.skipped + 1 }).reqs[m]? =
-          some { r with items := rest, pulled := r.pulled + 1, acquired := false, skipped := r.skipped + 1 } := by
+          some { r with items := rest, pulled := r.pulled + 1, acquired := false, frame := .running, skipped := r.skipped + 1 } := by
         simp only [modReq]; exact getElem?_modify_eq _ _ _ _ hp
       obtain ⟨r', hand, a, b, ⟨k, c1, c2, c3⟩, d, e, f⟩ := ih _ _ h2 ho hh
       refine ⟨r', hand, a, by simp only at b; simp only [List.length_cons]; omega,
@@ -97,7 +98,7 @@ theorem C05_loop_accounting_partial (m : Nat) (items : List Item) (p : Pool) (r 
           ⟨1, by rw [b.2.2.2.1]; simp, by rw [b.1], by simp⟩, by rw [b.1, b.2.1, b.2.2.1]; omega,
           MapEnd.waitingOwnSlot c (by rw [d]; exact ho) rfl, by rw [e]; exact hh⟩
       · -- a concurrency slot is free: take it, then `_start_task`
-        have h3 : ((p.pullItem m rest).takeMapSlot m).reqs[m]? = some (tmsUpd { r with items := rest, pulled := r.pulled + 1, acquired := false }) := by
+        have h3 : ((p.pullItem m rest).takeMapSlot m).reqs[m]? = some (tmsUpd { r with items := rest, pulled := r.pulled + 1, acquired := false, frame := .running }) := by
           simp only [takeMapSlot, modReq]; exact getElem?_modify_eq _ _ _ _ hp
         unfold mapStartTask
         split
@@ -140,6 +141,66 @@ theorem C05_done_means_all_partial (m : Nat) (items : List Item) (p : Pool) (r :
   | waitingOwnSlot hw => rw [hd] at hw; cases hw
   | waitingRoom hw => rw [hd] at hw; cases hw
   | failed e he => rw [hok] at he; cases he
+
+/-- **the books of the call's own semaphore balance, for every history**: in every pool of every reachable world
+(any sizes, resizes, cancellations of tasks / groups / everything, failures, flushes, user code in workers, callbacks
+and argument iterators), for every request: `free slots + tasks holding a slot + a slot granted to the waiting
+spawner + the slot the spawner carries while it waits for pool room ≤ num_concurrent` -/
+theorem C05_slot_books (base : Nat) (h : History) (i : Nat) (c : Cfg) (p : Pool)
+    (hc : ((World.init base).run h).cfgs[i]? = some c) (hp : ((World.init base).run h).pools[i]? = some p)
+    (m : Nat) (r : Req) (hr : p.reqs[m]? = some r) :
+    ∃ v, r.mapSem.value = .fin v ∧ v + heldM p.tasks m + grantsL r.mapSem.waiters + r.pend ≤ r.nc :=
+  (mapAll base h i c p hc hp).le m r hr
+
+/-- the tasks of call `m` that have not handed back their pool slot — in particular every one whose worker has begun
+and not finished, and every one still inside its cancel callback -/
+def Pool.mapActive (p : Pool) (m : Nat) : Nat := p.tasks.countP (fun tk => tk.isMap && tk.req == m && !tk.released)
+
+/-- the tasks of call `m` whose worker coroutine has begun and not finished -/
+def Pool.mapLive (p : Pool) (m : Nat) : Nat := p.tasks.countP (fun tk => tk.isMap && tk.req == m && tk.phase == .inWorker)
+
+/-- **never more than `num_concurrent` at once.** In every pool of every reachable world, for every map-family
+request, the number of its tasks that are running (created and not yet ended — a fortiori the number of its worker
+coroutines that have begun and not finished) never exceeds its `num_concurrent` -/
+theorem C05_concurrency_bound (base : Nat) (h : History) (i : Nat) (c : Cfg) (p : Pool)
+    (hc : ((World.init base).run h).cfgs[i]? = some c) (hp : ((World.init base).run h).pools[i]? = some p)
+    (m : Nat) (r : Req) (hr : p.reqs[m]? = some r) : p.mapLive m ≤ p.mapActive m ∧ p.mapActive m ≤ r.nc := by
+  have hl := lifeAll base h i c p hc hp
+  obtain ⟨hph, _⟩ := baseAll base h i c p hc hp
+  obtain ⟨v, _, hs⟩ := C05_slot_books base h i c p hc hp m r hr
+  refine ⟨?_, ?_⟩
+  · unfold Pool.mapLive Pool.mapActive
+    apply List.countP_mono_left
+    intro tk hmem hx
+    obtain ⟨j, hj, rfl⟩ := List.getElem_of_mem hmem
+    simp only [Bool.and_eq_true, beq_iff_eq] at hx
+    have := hph j p.tasks[j] (by simp [hj]) (by simp [NYR, hx.2])
+    simp [hx.1.1, hx.1.2, this]
+  · have : p.mapActive m ≤ heldM p.tasks m := by
+      unfold Pool.mapActive heldM
+      apply List.countP_mono_left
+      intro tk hmem hx
+      obtain ⟨j, hj, rfl⟩ := List.getElem_of_mem hmem
+      simp only [Bool.and_eq_true, beq_iff_eq, Bool.not_eq_true'] at hx
+      have := (hl j p.tasks[j] (by simp [hj])).mh hx.1.1 hx.2
+      have hmh : p.tasks[j].mapHeld = true := this
+      simp [hmh, hx.1.2]
+    omega
+
+/-- `num_concurrent` of a request is what the call was given (`doMap` registers exactly this record), and the call's
+semaphore starts with that many free slots -/
+theorem C05_nc_is_given (stars : Nat) (g : String) (sp : SpawnSpec) (items : List Item) (nc : Nat) :
+    (newReq .map stars g sp 0 items nc).nc = nc ∧
+    (newReq .map stars g sp 0 items nc).mapSem = { value := .fin nc, waiters := [] } := ⟨rfl, rfl⟩
+
+/-! Non-vacuity of the bound: `map` over 4 gated elements with `num_concurrent = 2` on an unbounded pool, after the
+spawner and both tasks have taken their first steps: exactly two workers of the call are live. -/
+def C05_demo : History :=
+  [.mkpool none none none, .on 0 [] (.map 0 [⟨false⟩, ⟨false⟩, ⟨false⟩, ⟨false⟩] 2 none gatedSpec),
+   .run 0 [], .run 0 [], .run 0 []]
+
+example : (((World.init 0).run C05_demo).pools.map fun p => (p.mapLive 0, p.mapActive 0, p.reqs.map (·.nc))) = [(2, 2, [2])] := by
+  decide +kernel
 
 /-! Non-vacuity: `map` over 4 elements with `num_concurrent = 2` on an unbounded pool: two tasks, the third
 element is in hand, the fourth has not been touched. -/
